@@ -27,6 +27,11 @@ def programs_for(tier, seed):
         cfgs = cfgs[:12]
     progs = corpus.cell_programs(cfgs)
     progs += corpus.finding_programs()
+    # the layout / ordering / identifier-shape programs of the determinism checks (small), except the
+    # one whose output is nondeterministic by itself (file-name collision, the C13 finding)
+    # (det-acronyms: every Rust packet falls under the recorded finding rust-raw-type-names, whose witness
+    # programs are among the finding programs already)
+    progs += [(pid, text) for pid, text in corpus.layout_programs() if pid not in ("det-name-collision", "det-acronyms")]
     progs += corpus.random_programs(seed, 12 if tier == "quick" else 200)
     return progs
 
